@@ -92,6 +92,18 @@ pub struct Shape {
     pub radius: usize,
     pub header: bool,
     pub bytes: bool,
+    /// large-text family (more than 100 lines, TextDiffConfig's interning branch): `pre` pairwise
+    /// different lines, a small window, `post` pairwise different lines; window items per side:
+    /// 0 = fresh line (differs from every skeleton line), 1 = copy of the skeleton line just before
+    /// the window, 2 = copy of the skeleton line just after it.  `old` / `new` are unused then.
+    pub big: Option<Big>,
+}
+#[derive(Clone, Debug, PartialEq, Eq)]
+pub struct Big {
+    pub pre: usize,
+    pub post: usize,
+    pub old_w: Vec<u8>,
+    pub new_w: Vec<u8>,
 }
 
 pub struct C05;
@@ -306,8 +318,47 @@ impl C05 {
         similar::algorithms::verif_swap::set_repair(repair);
         symtxt::reset();
         symtxt::set_byte_mode(s.bytes);
-        let old: Vec<Sym> = symtxt::text_from_pattern(&s.old.pattern());
-        let new: Vec<Sym> = symtxt::text_from_pattern(&s.new.pattern());
+        let (old, new): (Vec<Sym>, Vec<Sym>) = match &s.big {
+            None => (symtxt::text_from_pattern(&s.old.pattern()), symtxt::text_from_pattern(&s.new.pattern())),
+            Some(b) => {
+                use crate::engine::F;
+                let line = || -> [Sym; 2] { [symtxt::fresh_char(symtxt::Class::Ord), symtxt::fresh_char(symtxt::Class::Lf)] };
+                let skel: Vec<[Sym; 2]> = (0..b.pre + b.post).map(|_| line()).collect();
+                engine::assume(&F::Distinct(skel.iter().map(|l| l[0].0).collect()));
+                for (i, l) in skel.iter().enumerate() {
+                    engine::set_hash_class(l[0].0, i as u64);
+                    engine::set_hash_class(l[1].0, 1 << 40);
+                }
+                let mut fs = vec![];
+                let mut side = |w: &Vec<u8>| -> Vec<Sym> {
+                    let mut t: Vec<Sym> = skel[..b.pre].iter().flatten().copied().collect();
+                    for k in w {
+                        match *k {
+                            1 if b.pre > 0 => t.extend_from_slice(&skel[b.pre - 1]),
+                            2 if b.post > 0 => t.extend_from_slice(&skel[b.pre]),
+                            _ => {
+                                let l = line();
+                                engine::set_hash_class(l[0].0, u64::MAX);
+                                engine::set_hash_class(l[1].0, 1 << 40);
+                                for sk in &skel {
+                                    fs.push(F::ne(l[0].0, sk[0].0));
+                                }
+                                t.extend_from_slice(&l);
+                            }
+                        }
+                    }
+                    t.extend(skel[b.pre..].iter().flatten().copied());
+                    t
+                };
+                let o = side(&b.old_w);
+                let n = side(&b.new_w);
+                if !fs.is_empty() {
+                    engine::assume(&F::And(fs));
+                }
+                engine::witness("paths_above_the_100_line_threshold");
+                (o, n)
+            }
+        };
         let (ot, nt) = (SymTxt::new(&old), SymTxt::new(&new));
         // symbolic stage: the diff (all equality patterns of the lines, decided by the solver)
         let diff = TextDiff::configure().algorithm(s.alg).diff_lines(ot, nt);
@@ -422,8 +473,50 @@ impl Prop for C05 {
                             if tier == Tier::Thorough && old.lines + new.lines > 8 && (bytes || radius == 3) {
                                 continue;
                             }
-                            v.push(Shape { alg, old, new, radius, header, bytes });
+                            v.push(Shape { alg, old, new, radius, header, bytes, big: None });
                         }
+                    }
+                }
+            }
+        }
+        // more than 100 lines on at least one side
+        let wins = |max: usize| -> Vec<Vec<u8>> {
+            let mut all: Vec<Vec<u8>> = vec![vec![]];
+            let mut cur: Vec<Vec<u8>> = vec![vec![]];
+            for _ in 0..max {
+                let mut nx = vec![];
+                for w in &cur {
+                    for k in 0..3u8 {
+                        let mut u = w.clone();
+                        u.push(k);
+                        nx.push(u);
+                    }
+                }
+                all.extend(nx.iter().cloned());
+                cur = nx;
+            }
+            all
+        };
+        let none = Side { lines: 0, term: Term::Lf, last_unterminated: false, wide: false };
+        let (wmax, places): (usize, Vec<(usize, usize)>) = match tier {
+            Tier::Quick => (2, vec![(50, 51), (99, 0)]),
+            Tier::Thorough => (3, vec![(50, 51), (99, 0), (0, 99), (3, 98), (97, 2)]),
+        };
+        for alg in ALGS {
+            for &(pre, post) in &places {
+                for ow in wins(wmax) {
+                    for nw in wins(wmax) {
+                        if pre + post < 101 && ow.len().max(nw.len()) < 2 {
+                            continue; // neither side would exceed 100 lines
+                        }
+                        if (pre == 0 && (ow.contains(&1) || nw.contains(&1))) || (post == 0 && (ow.contains(&2) || nw.contains(&2))) {
+                            continue;
+                        }
+                        if alg == Algorithm::Lcs && ow.len() + nw.len() > 4 {
+                            continue;
+                        }
+                        let radius = if (ow.len() + nw.len()) % 2 == 0 { 1 } else { 0 };
+                        v.push(Shape { alg, old: none, new: none, radius, header: false, bytes: false, big: Some(Big { pre, post, old_w: ow.clone(), new_w: nw.clone() }) });
                     }
                 }
             }
@@ -440,10 +533,14 @@ impl Prop for C05 {
         }
     }
     fn cost(&self, s: &Shape) -> u64 {
-        (s.old.lines + s.new.lines) as u64
+        match &s.big {
+            None => (s.old.lines + s.new.lines) as u64,
+            Some(b) => 20 + (b.old_w.len() + b.new_w.len()) as u64 + if s.alg == Algorithm::Lcs { 20 } else { 0 },
+        }
     }
     fn shape_json(&self, s: &Shape) -> Value {
-        json!({"alg": alg_name(s.alg), "old": s.old.to_json(), "new": s.new.to_json(), "radius": s.radius, "header": s.header, "bytes": s.bytes})
+        json!({"alg": alg_name(s.alg), "old": s.old.to_json(), "new": s.new.to_json(), "radius": s.radius, "header": s.header, "bytes": s.bytes,
+            "big": s.big.as_ref().map(|b| json!({"pre": b.pre, "post": b.post, "old_window": b.old_w, "new_window": b.new_w}))})
     }
     fn shape_from(&self, v: &Value) -> Shape {
         Shape {
@@ -453,9 +550,19 @@ impl Prop for C05 {
             radius: v["radius"].as_u64().unwrap() as usize,
             header: v["header"].as_bool().unwrap(),
             bytes: v["bytes"].as_bool().unwrap(),
+            big: if v["big"].is_object() {
+                let w = |k: &str| -> Vec<u8> { v["big"][k].as_array().unwrap().iter().map(|x| x.as_u64().unwrap() as u8).collect() };
+                Some(Big { pre: v["big"]["pre"].as_u64().unwrap() as usize, post: v["big"]["post"].as_u64().unwrap() as usize, old_w: w("old_window"), new_w: w("new_window") })
+            } else {
+                None
+            },
         }
     }
     fn describe(&self, s: &Shape, ints: &[i64], _b: &[bool]) -> Value {
+        if let Some(b) = &s.big {
+            let skel_vals = 2 * (b.pre + b.post);
+            return json!({"shape": self.shape_json(s), "note": "pre + post pairwise different one-character LF-terminated lines with a window between them; window items: 0 = fresh line, 1 = copy of the line before the window, 2 = copy of the line after it", "values_of_the_fresh_window_lines (character, LF) in order of creation, old side first": ints.iter().skip(skel_vals).collect::<Vec<_>>()});
+        }
         // instantiate the texts from the values (letters for ordinary characters)
         let render = |pat: &str, vals: &[i64]| -> String {
             let mut out = String::new();
@@ -480,13 +587,13 @@ impl Prop for C05 {
                 "similar::group_diff_ops",
                 "similar::Change::{to_string_lossy, missing_newline, as_bytes via DiffableStr}",
             ],
-            bounds: format!("line texts of 0..={} lines per side (1-character contents, one 2-character variant), terminators LF / CRLF / CR (same on both sides, or LF against CRLF / CR) and texts whose lines cycle through LF, CRLF, CR, last line terminated or not, x 3 algorithms x context radius {} x {{no header, header, header + byte mode with a 0xFF byte in every line}}; the diff stage is symbolic (all equality patterns of the lines); the rendering stage has no data-dependent branch and is evaluated on one model of each path, parsed and applied by an independent strict parser", match tier { Tier::Quick => 4, Tier::Thorough => 5 }, match tier { Tier::Quick => "0..=2", Tier::Thorough => "0..=3" }),
+            bounds: format!("line texts of 0..={} lines per side (1-character contents, one 2-character variant), terminators LF / CRLF / CR (same on both sides, or LF against CRLF / CR) and texts whose lines cycle through LF, CRLF, CR, last line terminated or not, x 3 algorithms x context radius {} x {{no header, header, header + byte mode with a 0xFF byte in every line}}; the diff stage is symbolic (all equality patterns of the lines); the rendering stage has no data-dependent branch and is evaluated on one model of each path, parsed and applied by an independent strict parser; plus texts of more than 100 lines (TextDiffConfig's interning branch): 99..101 pairwise-different LF-terminated lines with a window of up to {} lines per side at the middle / end{} of the text, each window line a fresh symbolic line or a copy of the line just before / after the window, radius 0 / 1", match tier { Tier::Quick => 4, Tier::Thorough => 5 }, match tier { Tier::Quick => "0..=2", Tier::Thorough => "0..=3" }, match tier { Tier::Quick => 2, Tier::Thorough => 3 }, match tier { Tier::Quick => "", Tier::Thorough => " / front / near either end" }),
             outside: "more lines; other mixes of terminators within one text than the LF/CRLF/CR cycle; missing_newline_hint(false); non-line diffs rendered as unified diffs; str/[u8] tokenization itself (C06)".into(),
             assumptions: vec![
                 "rendering copies line bytes without looking at them (true of the code: write_all(as_bytes) / to_string_lossy), so one model per path is exhaustive for that path".into(),
                 "H2 swap-repair switch is used only to attribute a failing case to the known finding at the compaction swap".into(),
             ],
-            required_witnesses: vec!["paths_with_a_hunk", "paths_with_two_or_more_hunks", "paths_with_equal_inputs", "paths_with_missing_newline_marker", "paths_that_took_a_compaction_swap"],
+            required_witnesses: vec!["paths_above_the_100_line_threshold", "paths_with_a_hunk", "paths_with_two_or_more_hunks", "paths_with_equal_inputs", "paths_with_missing_newline_marker", "paths_that_took_a_compaction_swap"],
             rule: "one state = one explored path (equality pattern of the lines) of one shape".into(),
         }
     }
